@@ -54,6 +54,19 @@ func C18(c *core.Ctx) {
 			}
 			pool = append(pool, item{m, enc})
 		}
+		if mode == "packed" {
+			// event streams beyond any chunked-read threshold (64 KiB and more), after and before short ones
+			for _, n := range []int{70000, 140000} {
+				m := gen.GenMsg(r, mode, false, false)
+				m.Stream = make([]byte, n)
+				r.Read(m.Stream)
+				if n > 100000 {
+					m.Opts = &gen.Opts{Absent: true}
+				}
+				enc, _ := marshal(m.ToGo(r).(codecMsg))
+				pool = append(pool, item{m, enc})
+			}
+		}
 		seqs := [][]int{}
 		for a := range pool {
 			for b := range pool {
